@@ -124,12 +124,12 @@ def build(m):
     method('CodeFence', 'read', Contract(
         MOD + ':CodeFence.read', [('cls', cls_t('CodeFence')), ('lines', FW)],
         returns=TOpt(TTuple([TList(STR), OPENINFO])),
-        requires=READER_REQ + ['not is_none(CodeFence._open_info)'],
+        requires=READER_REQ + ['not is_none(CodeFence._open_info)', 'len(some(CodeFence._open_info)[1]) >= 1'],
         ensures=READER_ENS_SOME,
         modifies=['lines._index'],
         body_types={'line_buffer': TList(STR)},
         loops={0: Loop(invariant=['CURSOR_OK(lines)', 'lines._index > old(lines._index)',
-                                  'not is_none(CodeFence._open_info)'],
+                                  'not is_none(CodeFence._open_info)', 'len(some(CodeFence._open_info)[1]) >= 1'],
                        decreases='len(lines.lines) - 1 - lines._index')},
         prop=P + ['C11']), classmethod_=True)
 
@@ -250,7 +250,7 @@ def build3(m):
     OPENINFO = TTuple([INT, STR, STR, STR])
     method('CodeFence', 'start', Contract(
         MOD + ':CodeFence.start', [('cls', cls_t('CodeFence')), ('line', STR)], returns=BOOL, trusted=True,
-        ensures=['implies(result, not is_none(CodeFence._open_info))'],
+        ensures=['implies(result, not is_none(CodeFence._open_info) and len(some(CodeFence._open_info)[1]) >= 3)'],
         modifies=['G:CodeFence._open_info'],
         note='A5 capture contract for CodeFence.pattern: a truthy start() has stored the opener'),
         classmethod_=True)
